@@ -190,3 +190,18 @@ pub fn bloom_fractional_lifetime_native(_x: u8) -> u32 {
         0
     }
 }
+
+/// C10 / C14: the address inside a token survives encoding: `decode_ip(encode_ip(ip)) == ip` for every IPv4
+/// and IPv6 address - IPv4-mapped IPv6 addresses included, which a dual-stack server sees for IPv4 clients and
+/// compares with `==` when the token comes back.
+pub fn ip_roundtrip(v6: bool, bytes: [u8; 16]) -> u32 {
+    let ip = if v6 { IpAddr::V6(std::net::Ipv6Addr::from(bytes)) } else { IpAddr::V4(std::net::Ipv4Addr::new(bytes[0], bytes[1], bytes[2], bytes[3])) };
+    let mut buf: Vec<u8> = Vec::with_capacity(32);
+    encode_ip(&mut buf, ip);
+    let mut r = &buf[..];
+    let back = decode_ip(&mut r);
+    assert!(back == Some(ip), "the address read back from a token is not the address written into it");
+    assert!(r.is_empty());
+    core::mem::forget(buf);
+    if v6 { 2 } else { 1 }
+}
